@@ -78,7 +78,7 @@ def items(tier, seed):
     for it in build.enum_mdps(2, [('a', 'b')], 1, [F(-1), F(0), F(1)], [()], [build.INIT_MENU[2][2]], [F(9, 10)]):
         j += 1
         if tier == 'thorough' or j % 4 == seed % 4:
-            yield ('wrapper', it, j % 4, 0, 0, 0)
+            yield ('wrapper', it, j % 4, (j // 4) % 3, 0, 0)
 
 
 def lse_weighted(xs, ps):
@@ -179,14 +179,24 @@ def check(item, tier):
 
 
 def check_wrapper(item, r, torch, Planner, fn):
-    kind, spec_item, wi, _, _, _ = item
+    kind, spec_item, wi, prior_kind, _, _ = item
     spec = Spec(spec_item)
     w = WEIGHTS[wi]
     r.count('states')
     li = wi % 6
     mdp = build.SpecMDP(spec, ['int', 'rev', 'str', 'mix', 'tup', 'fd'][li], ['ab', 'rev', 'ab', 'mix', 'rev', 'fd'][li])
+    # prior handed to the wrapper: default (uniform over available actions), shared 1xA, or per-state SxA (rows in the
+    # order of mdp.state_list / mdp.action_list); the oracle below uses exactly the rows the user passed
+    nS, nA = len(mdp.state_list), len(mdp.action_list)
+    prior_arg, prior_rows = None, None
+    if prior_kind == 1 and nA == 2:
+        prior_rows = [[0.25, 0.75] for _ in range(nS)]
+        prior_arg = torch.tensor([[0.25, 0.75]], dtype=torch.float64)
+    elif prior_kind == 2 and nA == 2:
+        prior_rows = [[0.25, 0.75] if i % 2 == 0 else [0.5, 0.5] for i in range(nS)]
+        prior_arg = torch.tensor(prior_rows, dtype=torch.float64)
     try:
-        res = Planner(iterations=2000, entropy_weight=w).plan_on(mdp)
+        res = Planner(iterations=2000, entropy_weight=w, policy_prior=prior_arg).plan_on(mdp)
     except Exception as e:
         r.violation('wrapper_exception', {'error': repr(e)[:300]}, item)
         return r
@@ -210,7 +220,11 @@ def check_wrapper(item, r, torch, Planner, fn):
             if not abs(qv[a] - look) <= tol:
                 r.violation('wrapper_q_not_lookahead', dict(ctx, s=s, a=a, q=qv[a], lookahead=look), item)
         xs = [qv[a] / w for a in acts]
-        pri = [1.0 / len(acts)] * len(acts)
+        if prior_rows is None:
+            pri = [1.0 / len(acts)] * len(acts)
+        else:
+            si = list(mdp.state_list).index(sl(s))
+            pri = [prior_rows[si][list(mdp.action_list).index(al(a))] for a in acts]
         lse = lse_weighted(xs, pri)
         for a, x, p in zip(acts, xs, pri):
             got = float(res.policy[sl(s)][al(a)])
